@@ -391,6 +391,242 @@ def oracle_cache(case):
     return labels
 
 
+# ----------------------------------------------------------------------------- forms (input forms, decades, ledger, caller-side mutation)
+
+VFORMS = ('f64', 'f64', 'list', 'f32', 'F', 'strided', 'ro')
+PFORMS = ('f64', 'f64', 'list', 'f32', 'F', 'strided', 'ro')
+
+
+def as_form(x, form):
+    """the float64 array x handed over in another form (values must already be representable in that form)"""
+    x = np.array(x, dtype=float)
+    if form == 'f64':
+        return x.copy()
+    if form == 'list':
+        return x.tolist()
+    if form == 'tuple':
+        return tuple(map(tuple, x.tolist())) if x.ndim == 2 else tuple(x.tolist())
+    if form == 'f32':
+        return x.astype(np.float32)
+    if form.startswith('int') or form.startswith('uint'):
+        return x.astype(form)
+    if form == 'F':
+        return np.asfortranarray(x)
+    if form == 'ro':
+        y = x.copy(); y.setflags(write=False); return y
+    if form == 'strided':
+        big = np.full(tuple(2 * n for n in x.shape), 7.25)
+        big[tuple(slice(None, None, 2) for _ in x.shape)] = x
+        return big[tuple(slice(None, None, 2) for _ in x.shape)]
+    raise ValueError(form)
+
+
+def representable(x, form):
+    """x rounded to what the form can hold (float64 result)"""
+    x = np.array(x, dtype=float)
+    if form == 'f32':
+        return x.astype(np.float32).astype(float)
+    return x
+
+
+def frozen(a):
+    return a.tobytes() if isinstance(a, np.ndarray) else repr(a)
+
+
+@st.composite
+def forms_cases(draw):
+    intcell = draw(st.integers(0, 5)) == 0
+    if intcell:
+        L = [draw(st.integers(1, 60)) for _ in range(3)]
+        c = {'lx': float(L[0]), 'ly': float(L[1]), 'lz': float(L[2]),
+             'xy': float(draw(st.integers(-L[0], L[0]))), 'xz': float(draw(st.integers(-L[0], L[0]))), 'yz': float(draw(st.integers(-L[1], L[1]))),
+             'origin': [float(draw(st.integers(-100, 100))) for _ in range(3)], 'rot': None, 'lefthanded': False}
+        vform = draw(st.sampled_from(['int64', 'int32', 'int16', 'int8', 'list']))
+        if vform == 'int8':
+            for k in ('lx', 'ly', 'lz', 'xy', 'xz', 'yz'):
+                c[k] = float(max(-127, min(127, c[k])))
+    else:
+        c = draw(gens.cells(scaled=True))
+        vform = draw(st.sampled_from(VFORMS))
+    tiny = None
+    if not intcell and c['rot'] is None and draw(st.booleans()):
+        # tilts 1e-12 ... 1e-3 of the largest component, kept off Box's documented 1e-9 clean-up threshold
+        tiny = []
+        for k in ('xy', 'xz', 'yz'):
+            how = draw(st.sampled_from(['keep', 'zero', 'tiny', 'tiny']))
+            if how == 'zero':
+                c[k] = 0.0
+            elif how == 'tiny':
+                u = draw(st.one_of(nice_exp(-12.0, -9.6), nice_exp(-8.4, -3.0), nice_exp(-8.4, -3.0)))
+                c[k] = draw(st.sampled_from([-1.0, 1.0])) * 10.0 ** u * max(c['lx'], c['ly'], c['lz'])
+                tiny.append(u)
+    n = draw(st.integers(1, 6))
+    decades = draw(st.booleans())
+    rel = []
+    for _ in range(n):
+        if decades:
+            row = [draw(st.sampled_from([-1.0, 1.0, 1.0])) * draw(gens.nice(0.1, 0.99, 3)) * 10.0 ** draw(st.integers(-6, 6)) for _ in range(3)]
+        else:
+            row = [draw(gens.nice(-2.0, 3.0, 4)) for _ in range(3)]
+        rel.append(row)
+    pform = draw(st.sampled_from(PFORMS + (('int64', 'int16') if not decades else ())))
+    return {'cell': c, 'vform': vform, 'pform': pform, 'rel': rel, 'tiny': tiny, 'decades': decades,
+            'build': draw(st.sampled_from(['vects', 'avect'])), 'read': draw(st.sampled_from(LAMMPS_SETS)),
+            'other': draw(gens.cells(scaled=True)), 'mutate': draw(st.booleans())}
+
+
+def nice_exp(a, b):
+    return gens.nice(a, b, 2)
+
+
+def _row_tols(V, o, s):
+    """per-row rounding bounds (each row relative to ITS OWN magnitude) of s.V+o and of its inverse"""
+    cond = np.linalg.cond(V)
+    inv = np.linalg.inv(V)
+    ninv = np.abs(inv).sum(axis=0).max()
+    x_mag = np.abs(s) @ np.abs(V) + np.abs(o)                     # (N,3) magnitudes entering each sum
+    tol_x = 64 * EPS * x_mag.max(axis=1)
+    tol_s = 64 * EPS * (x_mag.max(axis=1) * ninv + cond * np.abs(s).max(axis=1)) * 3
+    return tol_x, tol_s, cond, ninv
+
+
+def oracle_forms(case):
+    import atomman as am
+    c = case['cell']
+    vform, pform = case['vform'], case['pform']
+    V = representable(gens.cell_vects(c), vform)
+    o = representable(gens.cell_origin(c), vform)
+    labels = gens.cell_labels(c) | {'vform_' + vform, 'pform_' + pform}
+    vmax, omax = np.abs(V).max(), np.abs(o).max()
+    cond = np.linalg.cond(V)
+    compat = c['rot'] is None
+    # --- construction from the caller's objects: they stay as they were
+    aV, ao = as_form(V, vform), as_form(o, vform)
+    fV, fo = frozen(aV), frozen(ao)
+    if case['build'] == 'vects':
+        B = am.Box(vects=aV, origin=ao)
+    else:
+        B = am.Box(avect=aV[0], bvect=aV[1], cvect=aV[2], origin=ao)
+    require(frozen(aV) == fV and frozen(ao) == fo, 'Box(...) modified the vects / origin objects handed in')
+    # Box's documented clean-up: components below 1e-9 of the largest may come back as zero; everything else to rounding
+    cleanable = np.abs(V) <= 1.5e-9 * vmax
+    tolV = np.where(cleanable, np.abs(V), 0.0) + 4 * EPS * vmax
+    Bv = np.asarray(B.vects)
+    require(Bv.dtype == np.float64 and Bv.shape == (3, 3), lambda: 'Box.vects has dtype %r shape %r' % (Bv.dtype, Bv.shape))
+    require(np.all(np.abs(Bv - V) <= tolV), lambda: 'Box built from %s %s: vects\n%r\nexpected\n%r' % (vform, case['build'], Bv, V))
+    require(np.array_equal(np.asarray(B.origin, dtype=float), o), lambda: 'Box built from %s: origin %r expected %r' % (vform, B.origin, o))
+    Vc = np.where(np.abs(Bv) == 0, 0.0, V)      # the cell as atomman keeps it (cleaned components)
+    if case['tiny'] is not None:
+        labels.add('tiny_tilt' if case['tiny'] else 'tilt_keep_or_zero')
+        for u in case['tiny']:
+            labels.add('tiny_above_cleanup' if u > -9 else 'tiny_below_cleanup')
+        require(bool(B.is_lammps_norm()), 'is_lammps_norm() False for a triangular cell with small tilts')
+        for k, (i, j) in {'xy': (1, 0), 'xz': (2, 0), 'yz': (2, 1)}.items():
+            got = float(getattr(B, k))
+            require(abs(got - V[i, j]) <= tolV[i, j], lambda: 'Box.%s = %r for a cell built with %r' % (k, got, V[i, j]))
+    # --- read through another parameter set and rebuild (tight bound; lattice parameters: conditioned bound)
+    s2 = case['read']
+    if compat or s2 in FREE_SETS:
+        if not (s2 == 'abc' and cond > 1e4):
+            B2 = rebuild(am, B, s2)
+            B2v = np.asarray(B2.vects, dtype=float)
+            if s2 == 'abc':
+                t2 = tolV + (1e-12 + 40 * EPS * cond ** 2) * vmax
+            elif s2 == 'hilo':
+                t2 = tolV + 8 * EPS * (omax + vmax)
+            else:
+                t2 = tolV
+            if compat:
+                require(np.all(np.abs(B2v - V) <= t2), lambda: 'rebuild via %s: vects\n%r\nexpected\n%r\n(tolerance %r)' % (s2, B2v, V, t2))
+            else:
+                G0, G1 = Vc @ Vc.T, B2v @ B2v.T
+                # the rebuilt cell is in another orientation: ITS small components fall under the 1e-9 clean-up as well
+                require(np.abs(G0 - G1).max() <= 4 * np.max(t2) * vmax + 3.1e-9 * vmax ** 2, lambda: 'rebuild via %s: Gram matrices differ by %.3g' % (s2, np.abs(G0 - G1).max()))
+            labels.add('read_' + s2)
+    # --- position maps in every input form, each row judged relative to its own magnitude
+    s = representable(np.array(case['rel'], dtype=float), pform)
+    if pform.startswith('int'):
+        s = np.round(s)
+    tol_x, tol_s, _, ninv = _row_tols(Vc, o, s)
+    x_exp = s @ Vc + o
+    Ps = as_form(s, pform); fPs = frozen(Ps)
+    gx = B.position_relative_to_cartesian(Ps)
+    require(frozen(Ps) == fPs, 'position_relative_to_cartesian modified its argument')
+    require(isinstance(gx, np.ndarray) and gx.shape == s.shape and gx.dtype == np.float64, lambda: 'relative_to_cartesian(%s) returned %r' % (pform, gx))
+    ex = np.abs(gx - x_exp).max(axis=1)
+    require(np.all(ex <= tol_x), lambda: 'relative_to_cartesian(%s input): rows %r differ from s.V+o by %r (own-magnitude bounds %r)\ns=%r' % (pform, np.nonzero(ex > tol_x)[0].tolist(), ex.tolist(), tol_x.tolist(), s.tolist()))
+    x_in = representable(x_exp, pform)
+    if pform.startswith('int'):
+        x_in = np.round(x_in)
+        if np.abs(x_in).max() > 32000:      # the harness must not wrap the numbers it hands over
+            pform = 'int64'
+        if np.abs(x_in).max() > 2 ** 62:
+            pform = 'f64'
+    s_exp = np.linalg.solve(Vc.T, (x_in - o).T).T
+    _, tol_s2, _, _ = _row_tols(Vc, o, s_exp)
+    Px = as_form(x_in, pform); fPx = frozen(Px)
+    gs = B.position_cartesian_to_relative(Px)
+    require(frozen(Px) == fPx, 'position_cartesian_to_relative modified its argument')
+    require(isinstance(gs, np.ndarray) and gs.shape == s.shape and gs.dtype == np.float64, lambda: 'cartesian_to_relative(%s) returned %r' % (pform, gs))
+    es = np.abs(gs - s_exp).max(axis=1)
+    require(np.all(es <= tol_s2), lambda: 'cartesian_to_relative(%s input): rows %r differ from my solve by %r (own-magnitude bounds %r)\nx=%r' % (pform, np.nonzero(es > tol_s2)[0].tolist(), es.tolist(), tol_s2.tolist(), x_in.tolist()))
+    # one row at a time = the row of the array call
+    for i in range(len(s)):
+        g1 = B.position_relative_to_cartesian(as_form(s[i], pform))
+        require(np.abs(g1 - gx[i]).max() <= tol_x[i], lambda: 'relative_to_cartesian: row %d alone gives %r, in the array %r' % (i, g1, gx[i]))
+        g2 = B.position_cartesian_to_relative(as_form(x_in[i], pform))
+        require(np.abs(g2 - gs[i]).max() <= tol_s2[i], lambda: 'cartesian_to_relative: row %d alone gives %r, in the array %r' % (i, g2, gs[i]))
+    band = 1e-9 * cond + 1e-12 * omax * ninv
+    near = np.any((np.abs(s_exp) < band * np.maximum(1, np.abs(s_exp))) | (np.abs(s_exp - 1) < band * np.maximum(1, np.abs(s_exp))), axis=1)
+    exp_in = np.all((s_exp >= 0) & (s_exp <= 1), axis=1)
+    got_in = np.asarray(B.inside(Px))
+    require(got_in.shape == (len(s),) and got_in.dtype == bool, lambda: 'inside(%s) returned %r' % (pform, got_in))
+    require(np.array_equal(got_in[~near], exp_in[~near]), lambda: 'inside(%s input) = %r expected %r for relative coordinates %r' % (pform, got_in.tolist(), exp_in.tolist(), s_exp.tolist()))
+    if exp_in.any():
+        labels.add('some_inside')
+    R1, V1, o1 = B.reciprocal_vects, B.vects, B.origin
+    dual = np.abs(Vc @ np.asarray(R1).T - np.eye(3)).max()
+    require(dual <= 64 * EPS * cond, lambda: 'vects . reciprocal_vects^T - I = %.3g (cond %.3g)' % (dual, cond))
+    ledger = [('relative_to_cartesian result', gx), ('cartesian_to_relative result', gs), ('inside result', got_in),
+              ('reciprocal_vects', R1), ('vects', V1), ('origin', o1)]
+    kept = [np.array(a, copy=True) for _, a in ledger]
+    # --- the caller goes on using its own objects
+    if case['mutate']:
+        for a in (aV, ao, Ps, Px):
+            if isinstance(a, np.ndarray) and a.flags.writeable:
+                a[...] = (a * 3 + 1).astype(a.dtype) if a.dtype.kind == 'f' else a[::-1].copy()
+                labels.add('caller_overwrote_inputs')
+    # --- another Box is built and used
+    c2 = case['other']
+    V2, o2 = gens.cell_vects(c2), gens.cell_origin(c2)
+    Bo = am.Box(vects=V2, origin=o2)
+    Bo.position_relative_to_cartesian(s); Bo.position_cartesian_to_relative(x_in); Bo.inside(x_in); Bo.reciprocal_vects; Bo.planes
+    for (what, a), k in zip(ledger, kept):
+        require(np.array_equal(a, k), lambda: 'the %s handed out earlier changed after later calls: was %r, is %r' % (what, k.tolist(), np.asarray(a).tolist()))
+    # --- the arrays handed out are the caller's to overwrite
+    for _, a in ledger:
+        a[...] = 0
+    require(np.array_equal(B.vects, kept[4]) and np.array_equal(B.origin, kept[5]) and np.array_equal(B.reciprocal_vects, kept[3]),
+            lambda: 'overwriting (or the caller re-using) arrays handed in / out changed the Box: vects %r (were %r), origin %r (was %r), reciprocal %r (was %r)'
+            % (B.vects.tolist(), kept[4].tolist(), B.origin.tolist(), kept[5].tolist(), B.reciprocal_vects.tolist(), kept[3].tolist()))
+    gx2 = B.position_relative_to_cartesian(as_form(s, pform))
+    gs2 = B.position_cartesian_to_relative(as_form(x_in, pform))
+    require(np.all(np.abs(gx2 - kept[0]).max(axis=1) <= tol_x) and np.all(np.abs(gs2 - kept[1]).max(axis=1) <= tol_s2),
+            lambda: 'the same maps give other answers after the caller re-used its arrays / another Box was used: %r vs %r; %r vs %r' % (gx2.tolist(), kept[0].tolist(), gs2.tolist(), kept[1].tolist()))
+    require(np.array_equal(np.asarray(B.inside(as_form(x_in, pform))), kept[2]), 'inside() gives other answers after the caller re-used its arrays / another Box was used')
+    if case['decades']:
+        m = np.abs(s[s != 0])
+        span = math.log10(m.max() / m.min()) if m.size else 0
+        labels.add('decades')
+        if span >= 8:
+            labels.add('span8')
+    if vform.startswith('int'):
+        labels.add('int_cell')
+    if vform not in ('f64',) or pform not in ('f64',) or case['tiny'] or case['decades']:
+        labels.add('nt')
+    return labels
+
+
 CLAUSES = [
     Clause('roundtrip', oracle_roundtrip, roundtrip_cases, quick=16000, thorough=400000,
            min_share={'nt': 0.25, 'read_abc': 0.1, 'read_hilo': 0.05, 'int_typed_lengths': 0.03},
@@ -403,4 +639,11 @@ CLAUSES = [
            desc='inside()/outside() against relative coordinates in [0,1]; exact boundary behaviour on dyadic orthogonal cells'),
     Clause('recip_cache', oracle_cache, cache_cases, quick=3000, thorough=60000, min_share={'nt': 0.5},
            desc='history of setters on one Box: vects/origin/reciprocal cache consistent after every step'),
+    Clause('forms', oracle_forms, forms_cases, quick=8000, thorough=200000,
+           min_share={'nt': 0.5, 'tiny_above_cleanup': 0.035, 'tiny_below_cleanup': 0.035, 'span8': 0.15, 'vform_f32': 0.04, 'pform_f32': 0.04,
+                      'int_cell': 0.07, 'caller_overwrote_inputs': 0.15, 'vform_strided': 0.04, 'pform_ro': 0.04, 'some_inside': 0.12},
+           desc='every input form (float32, integer dtypes, list, Fortran, strided, read-only) for cell and points; tilts 1e-12..1e-3 of the cell '
+                '(kept exactly above Box\'s documented 1e-9 clean-up); point arrays spanning 12 decades with every row judged relative to its own '
+                'magnitude and equal to the one-row call; arguments left untouched; results kept in a ledger stay bit-identical after the caller '
+                'overwrites what it handed in, another Box is built and used, and the arrays handed out are overwritten'),
 ]
